@@ -95,6 +95,9 @@ fn main() { let n = 0; try { try { throw("x"); } catch e { loop { n = n + 1; } }
 fn main() { let i = 0; loop { println("s", i); i = i + 1; time.sleep(0.05); } }`},
 	{name: "sleep-long", endless: false, check: noOutput, src: `
 fn main() { try { time.sleep(30.0); } catch e { println("caught"); } println("after"); }`},
+	{name: "sleep-in-nested-try-last", endless: false, check: noOutput, src: `
+fn work() { try { time.sleep(3.0); } catch inner { } }
+fn main() { try { work(); } catch e { } }`},
 	{name: "for-print", endless: true, check: consecutive("i"), src: `
 fn main() { for i in 0..1000000 { println("i", i); } }`},
 	{name: "finite", endless: false, check: consecutive("f"), src: `
@@ -132,7 +135,7 @@ func init() {
 		{"empty", ""}, {"let", "let a = 1;"}, {"assign", "n = n + 1;"}, {"call", "f(n);"}, {"nested-empty", "if flag { }"},
 	}
 	wraps := []struct{ name, pre, post string }{
-		{"plain", "", ""}, {"in-try", "try {", "} catch e { println(\"caught\"); }"}, {"in-callee", "", ""},
+		{"plain", "", ""}, {"in-try", "try {", "} catch e { println(\"caught\"); }"}, {"in-callee", "", ""}, {"in-try-last", "try {", "} catch e { }"},
 	}
 	for _, l := range loops {
 		for _, b := range bodies {
@@ -141,6 +144,10 @@ func init() {
 				src := "fn f(x: int) -> int { x + 1 }\n"
 				if w.name == "in-callee" {
 					src += fmt.Sprintf("fn spin(flag: bool) { let n = 0; %s }\nfn main() { spin(true); println(\"after\"); }", inner)
+				} else if w.name == "in-try-last" {
+					// an empty handler and nothing evaluated after the try: a termination that is
+					// caught here is never re-raised and the run ends "normally"
+					src += fmt.Sprintf("fn main() { let flag = true; let n = 0; %s }", inner)
 				} else {
 					src += fmt.Sprintf("fn main() { let flag = true; let n = 0; %s println(\"after\"); }", inner)
 				}
